@@ -1,6 +1,6 @@
 # C16 - packet extensions (DESIGN.md section 2, C16)
 ASSUMPTIONS = ['H1b composes by contract: skip_extension(_payload) are stubs whose guarantees H1a proves on the real code; the recursive self-call is an inductive-hypothesis stub']
-OUTSIDE = ('the iterator/generator above the leaf parsers: a generate->parse round-trip harness (harness/C16_genparse.c, kept for reference) gave no verdict even for one extension in one frame '
+OUTSIDE = ('the extension iterator and opus_packet_extensions_generate above the leaf parsers/writers: a generate->parse round-trip harness (harness/C16_genparse.c, kept for reference) gave no verdict even for one extension in one frame '
            '(recursion inside nested loops inlines >1500 leaf instances); repacketizer carriage of extensions')
 
 def obligations():
@@ -11,4 +11,21 @@ def obligations():
     L.append(Ob('H1a.leaves.len24.exact', 'C16_leaves.c', [], ['-DEL=24', '-DEXACT'], unwind=1, unwindset=['harness:25', 'skip_extension_payload:4'],
                 functions=['skip_extension_payload', 'skip_extension'], budget=600,
                 bounds='any buffer of 0..24 bytes in an exact-size heap object (reads before the start are caught too), any offset, any id byte'))
+    for xl in (-1, 0, 1, 2, 254, 255, 256, 509, 510, 511):
+        L.append(Ob('H2a.write_leaves.payload%s' % str(xl).replace('-', 'm'), 'C16_write.c', [], ['-DXLEN=%d' % xl], unwind=1, native_mem=True,
+                    unwindset=['harness:%d' % (xl + max(xl, 0) // 255 + 10), 'write_extension_payload:%d' % (max(xl, 0) // 255 + 2), 'skip_extension_payload:%d' % (max(xl, 0) // 255 + 3)],
+                    functions=['write_extension', 'write_extension_payload', 'skip_extension'], budget=900, tier=('quick' if xl <= 256 else 'thorough'),
+                    bounds='payload length %d (case selector); any exact-size output buffer of 0..coded size+8 bytes, pos 0..3, any id 3..127, last 0/1' % xl))
+    cases = [(3, 24, (1, 1, 1, 0), 0, 3, 'quick'), (3, 24, (1, 1, 1, 0), 1, 3, 'quick'), (3, 24, (0, 2, 1, 0), 1, 2, 'quick'), (3, 24, (2, 0, 1, 0), 2, 3, 'quick'),
+             (3, 24, (0, 2, 1, 0), 0, 2, 'thorough'), (3, 24, (2, 0, 0, 0), 0, 1, 'thorough'), (3, 24, (0, 0, 0, 0), 0, 3, 'thorough'),
+             (4, 300, (1, 0, 2, 1), 1, 4, 'thorough'), (4, 300, (1, 1, 1, 1), 0, 4, 'thorough'), (4, 300, (0, 1, 0, 2), 2, 4, 'thorough')]
+    for f, ol, pat, bg, en, tier in cases:
+        L.append(Ob('H3.carriage.f%d.out%d.ext%s.range%d_%d' % (f, ol, ''.join(map(str, pat[:f])), bg, en), 'C16_carriage.c', ['src/repacketizer.c', 'src/opus.c'],
+                    ['-DF=%d' % f, '-DOL=%d' % ol, '-DBEGIN=%d' % bg, '-DEND=%d' % en] + ['-DN%d=%d' % (i, pat[i]) for i in range(4)], unwind=1, memwords=8, witness=(sum(pat[bg:en]) > 0),
+                    unwindset=['harness:%d' % (max(ol + 2, 2 * f + 2)), 'slot_of:%d' % (f + 1), 'opus_packet_extensions_parse:3', 'opus_packet_extensions_generate:%d' % (2 * f + 1),
+                               'opus_repacketizer_out_range_impl:%d' % (max(f, 3) + ol // 255 + 2), 'opus_repacketizer_out_range_impl@ones_end:%d' % (ol + 2),
+                               'opus_repacketizer_out_range_impl@ext_count<nb_extensions:2', 'opus_packet_parse_impl:%d' % (max(f + 2, ol // 255 + 3))],
+                    functions=['opus_repacketizer_out_range_impl', 'opus_packet_parse_impl'], budget=900, tier=tier,
+                    stubs=['opus_packet_extensions_count/_parse/_generate: contract stubs over an abstract extension list (coded size E any value)'],
+                    bounds='%d single-frame slots of 0..1 bytes with %s extensions (case selector), range [%d,%d) (case selector), any maxlen 0..%d, any coded extension size 1..%d, any ids/lengths, both framings' % (f, pat[:f], bg, en, ol, ol)))
     return L
